@@ -723,7 +723,7 @@ def _split_tuple_assignments(tree):
                 is_all = v.func.id == "all"
                 hit = ast.Constant(value=(not is_all) != neg)        # value returned from inside the loop
                 miss = ast.Constant(value=is_all != neg)             # value returned after the loop
-                test = ast.UnaryOp(op=ast.Not(), operand=comp.elt) if is_all else comp.elt
+                test = (comp.elt.operand if isinstance(comp.elt, ast.UnaryOp) and isinstance(comp.elt.op, ast.Not) else ast.UnaryOp(op=ast.Not(), operand=comp.elt)) if is_all else comp.elt
                 body = [ast.If(test=test, body=[ast.Return(value=hit)], orelse=[])]
                 for g in reversed(comp.generators):
                     for c in reversed(g.ifs):
